@@ -373,6 +373,9 @@ def child_behaviour(arg):
         # (also spelled with a trailing slash, or not normalised: text is taken as it is given, in both forms)
         give('APP_ROOT', [target_dir, verif_dir, '/nonexistent/root', target_dir + '/',
                           os.path.dirname(target_dir) + '/./' + os.path.basename(target_dir)][arg.get('variant5', variant)])
+        if form == 'code':
+            # the environment names another root at the same time: the value given in code wins
+            env['DEEP_APP_ROOT'] = '/nonexistent/root-of-the-environment'
     os.environ.update(env)
     import deep
     from vf.targets import e2e_target
@@ -463,11 +466,11 @@ def case_classify(seed, out, spec):
         if inc:
             custom['IN_APP_INCLUDE'] = ','.join(inc)
         else:
-            custom['IN_APP_INCLUDE'] = []
+            custom['IN_APP_INCLUDE'] = r.pick([[], ''])     # (empty text names no prefix, like an empty list)
         if exc:
             custom['IN_APP_EXCLUDE'] = ','.join(exc)
         else:
-            custom['IN_APP_EXCLUDE'] = []
+            custom['IN_APP_EXCLUDE'] = r.pick([[], ''])
     else:
         custom['IN_APP_INCLUDE'] = (lambda v: (lambda: list(v)))(inc)
         custom['IN_APP_EXCLUDE'] = (lambda v: (lambda: list(v)))(exc)
